@@ -239,6 +239,8 @@ var serverDevs = []namedDev{
 	{"ecdh-garbage", puppet.Dev{ECDH: "garbage"}},
 	{"no-common-cipher", puppet.Dev{NoCommonCipher: true}},
 	{"select-claimtobe-regardless", puppet.Dev{AuthAnswer: "YES", SelectBit: puppet.BitClaimToBe}},
+	{"advertise-and-select-claimtobe", puppet.Dev{AuthAnswer: "YES", AdvertiseExtra: "CLAIMTOBE", SelectBit: puppet.BitClaimToBe}},
+	{"advertise-fs-select-claimtobe", puppet.Dev{AuthAnswer: "YES", AdvertiseExtra: "FS,CLAIMTOBE", SelectBit: puppet.BitClaimToBe}},
 	{"select-several-bits", puppet.Dev{AuthAnswer: "YES", SelectBit: puppet.BitClaimToBe | puppet.BitToken}},
 	{"select-zero", puppet.Dev{AuthAnswer: "YES", SelectZero: true}},
 	{"postauth-DENIED", puppet.Dev{ReturnCode: "DENIED"}},
